@@ -83,6 +83,20 @@ func runC14(c *Ctx) error {
 	}
 	pool := NewPool(c.sc.Worker, c.Workers, 1)
 	defer pool.Close()
+	// Reference workers are dedicated per target: a worker that computes the
+	// "target alone" reference never runs any other generator, so state that a
+	// generator leaves behind in the process (not only in the model) cannot
+	// contaminate another target's baseline.
+	refPools := map[string]*Pool{}
+	for _, t := range AllTargets {
+		refPools[t] = NewPool(c.sc.Worker, max(1, c.Workers/6), 1)
+	}
+	defer func() {
+		for _, p := range refPools {
+			p.Close()
+		}
+	}()
+	c.ncases = nprog
 	hall := allHistories()
 	var pairs [][]string
 	for _, h := range hall {
@@ -96,12 +110,22 @@ func runC14(c *Ctx) error {
 		seed := SubSeed(c.Seed, "c14", i)
 		prog := GenProg(seed)
 		text := prog.Render()
-		ref, err := pool.Do(&Req{ID: i, Op: "gen", DSL: []byte(text), History: AllTargets, Fresh: true, Sched: s0()})
-		if err != nil {
-			return err
+		var ref *Resp
+		for _, t := range AllTargets {
+			rt, err := refPools[t].Do(&Req{ID: i, Op: "gen", DSL: []byte(text), History: []string{t}, Sched: s0()})
+			if err != nil {
+				return err
+			}
+			c.ev.AddRecord(&rt.Rec)
+			c.noteUnseamed(rt)
+			if ref == nil {
+				ref = rt
+			} else if validity(rt) == "OK" && validity(ref) == "OK" {
+				ref.Steps = append(ref.Steps, rt.Steps...)
+			} else if validity(rt) != "OK" {
+				ref = rt
+			}
 		}
-		c.ev.AddRecord(&ref.Rec)
-		c.noteUnseamed(ref)
 		c.ev.Count("programs", 1)
 		if v := validity(ref); v != "OK" {
 			c.ev.Count("programs_rejected_or_crashing:"+strings.SplitN(v, ":", 2)[0], 1)
@@ -142,6 +166,7 @@ func runC14(c *Ctx) error {
 				return err
 			}
 			c.ev.AddRecord(&r.Rec)
+			c.event(fmt.Sprintf("c14|%d|%04d", i, hi), strings.Join(h, ">"), r.Rec.Choices, respSig(r))
 			if r.TimedOut || r.Crashed != "" {
 				c.mu.Lock()
 				c.inconclusive++
@@ -176,11 +201,15 @@ func (c *Ctx) candidate14(caseIdx int, prog *Prog, hist []string, f c14Fail) {
 		c.mu.Unlock()
 		return
 	}
-	c.sigSeen["coarse:"+coarse] = true
-	c.processed++
 	c.mu.Unlock()
 	candMu <- struct{}{}
 	defer func() { <-candMu }()
+	c.mu.Lock()
+	if c.sigSeen["coarse:"+coarse] {
+		c.mu.Unlock()
+		return
+	}
+	c.mu.Unlock()
 
 	// fails: does history h (victim last) still break invariant kind at its last step?
 	type res struct {
@@ -189,7 +218,8 @@ func (c *Ctx) candidate14(caseIdx int, prog *Prog, hist []string, f c14Fail) {
 	}
 	fails := func(p *Prog, h []string) res {
 		text := []byte(p.Render())
-		ref, err := DoFresh(c.sc.Worker, &Req{Op: "gen", DSL: text, History: AllTargets, Fresh: true, Sched: s0(), WantBytes: true}, 1)
+		// the reference is truly alone: its own fresh process, no other generator runs there
+		ref, err := DoFresh(c.sc.Worker, &Req{Op: "gen", DSL: text, History: []string{h[len(h)-1]}, Sched: s0(), WantBytes: true}, 1)
 		if err != nil || validity(ref) != "OK" {
 			return res{}
 		}
@@ -218,10 +248,22 @@ func (c *Ctx) candidate14(caseIdx int, prog *Prog, hist []string, f c14Fail) {
 	}
 	r := fails(prog, h)
 	if !r.ok {
+		c.ev.Count("candidates_not_reproducible_from_a_cold_process", 1)
+		c.mu.Lock()
+		tries := c.warmTries
+		c.warmTries++
+		c.mu.Unlock()
+		if f.kind == "I2" && tries < 6 && c.warmSearch("c14", caseIdx, c.ncases, prog, h, f.victim) {
+			return
+		}
 		c.ev.Count("unconfirmed_candidates", 1)
-		c.logf("candidate (case %d, %s at %s in %v) did not reproduce in a fresh process: not reported", caseIdx, f.kind, f.victim, h)
+		c.logf("candidate (case %d, %s at %s in %v) reproduced neither in a fresh process nor in a warm session: not reported", caseIdx, f.kind, f.victim, h)
 		return
 	}
+	c.mu.Lock()
+	c.sigSeen["coarse:"+coarse] = true
+	c.processed++
+	c.mu.Unlock()
 	origLen := len(hist)
 	// shrink the history: drop earlier steps
 	for i := 0; i < len(h)-1; {
@@ -305,6 +347,7 @@ func c14CLI(c *Ctx, n int, thorough bool) error {
 			if err == nil {
 				c.ev.AddRecord(&o.Rec)
 				c.ev.Count("cli_worlds", 1)
+				c.event(fmt.Sprintf("c14cli|%d|%s", i, strings.Join(ts, "+")), w.Argv, treeSig(o, ""), opSig(o))
 			}
 			return o, w, err
 		}
